@@ -18,6 +18,9 @@ import (
 // real function on it (in-package test injected with `go test -overlay`,
 // nothing is written to /repo) and compares the observed outcome with the one
 // the counterexample predicts.
+// replayGlobalDeadline bounds the counterexample search of one check run.
+var replayGlobalDeadline time.Time
+
 func tryReplay(w *world, o *vc.OblResult, ex *vc.Exec, rp *Replay) {
 	if o.Status != "failed" || ex == nil || o.Script == "" {
 		rp.Notes = append(rp.Notes, "no counterexample (the obligation is undischarged, not refuted)")
@@ -26,18 +29,69 @@ func tryReplay(w *world, o *vc.OblResult, ex *vc.Exec, rp *Replay) {
 	// Prefer a counterexample of the query with every opaque predicate
 	// unfolded: its model is faithful to the data, not only to the predicate.
 	useEx, useObl, useScript := ex, o.O, o.Script
+	type attempt struct {
+		small  uint64
+		inline int
+	}
+	var attempts []attempt
+	// first with the bodies of contracted callees in place of their contracts
+	// (the counterexample is then consistent with the callees' real
+	// behaviour), then with the contracts as in the proof
+	for _, small := range []uint64{16, 96, 640} {
+		attempts = append(attempts, attempt{small, 3})
+	}
 	for _, small := range []uint64{16, 96, 640, 0} {
+		attempts = append(attempts, attempt{small, 0})
+	}
+	inlineBudget := 40 * time.Second
+	// the search for a replayable counterexample is bounded per violation (the
+	// violation itself is already established by the failed obligation)
+	deadline := time.Now().Add(90 * time.Second)
+	if replayGlobalDeadline.Before(deadline) && !replayGlobalDeadline.IsZero() {
+		deadline = replayGlobalDeadline
+	}
+	for _, at := range attempts {
+		small := at.small
+		if at.inline > 0 && inlineBudget <= 0 {
+			continue
+		}
+		if time.Now().After(deadline) {
+			rp.Notes = append(rp.Notes, "counterexample search stopped: time budget for replays used up")
+			break
+		}
 		ex2 := vc.NewExec(w.prog, w.db, ex.Fn)
 		ex2.RevealAll = true
 		ex2.SmallLen = small
+		ex2.ReplayInline = at.inline
+		tg := time.Now()
 		ex2.Generate()
+		if at.inline > 0 {
+			inlineBudget -= time.Since(tg)
+			if len(ex2.Probs) > 0 {
+				if os.Getenv("GOVC_DEBUG") != "" {
+					fmt.Fprintf(os.Stderr, "replay inline attempt small=%d: problems: %v\n", small, ex2.Probs[0].Msg)
+				}
+				continue
+			}
+		}
 		found := false
 		for _, o2 := range ex2.Obls {
 			if o2.Name() == o.O.Name() {
 				if sc := ex2.ScriptFor(o2); sc != "" {
-					if r := smt.RunSolver("z3-new", sc, 30*time.Second); r.Status == "sat" {
+					to := 30 * time.Second
+					if at.inline > 0 {
+						to = 15 * time.Second
+					}
+					r := smt.RunSolver("z3-new", sc, to)
+					if os.Getenv("GOVC_DEBUG") != "" {
+						fmt.Fprintf(os.Stderr, "replay attempt small=%d inline=%d %s: %s\n", small, at.inline, o2.Name(), r.Status)
+					}
+					if r.Status == "sat" {
 						useEx, useObl, useScript = ex2, o2, sc
 						found = true
+						if at.inline > 0 {
+							rp.Notes = append(rp.Notes, "counterexample search with the bodies of contracted callees executed in place of their contracts")
+						}
 						if small > 0 {
 							rp.Notes = append(rp.Notes, fmt.Sprintf("counterexample searched among inputs whose slices have at most %d elements, with all opaque predicates unfolded and quantifiers fully instantiated over that range", small))
 						} else {
@@ -96,6 +150,9 @@ func tryReplay(w *world, o *vc.OblResult, ex *vc.Exec, rp *Replay) {
 		var idx int
 		var val string
 		if n, _ := fmt.Sscanf(line, "GOVC-REPLAY RESULT %d: %s", &idx, &val); n == 2 {
+			if k := strings.Index(line, ": "); k >= 0 {
+				val = strings.TrimSpace(line[k+2:])
+			}
 			observed[idx] = val
 		}
 	}
@@ -127,7 +184,13 @@ func tryReplay(w *world, o *vc.OblResult, ex *vc.Exec, rp *Replay) {
 			if p == "?" || p == "string" {
 				continue
 			}
-			if observed[i] != p {
+			ob := observed[i]
+			if !strings.Contains(p, " hex=") {
+				if k := strings.Index(ob, " hex="); k >= 0 {
+					ob = ob[:k]
+				}
+			}
+			if ob != p {
 				match = false
 				rp.Notes = append(rp.Notes, fmt.Sprintf("result %d: counterexample predicts %s, real code returned %s", i, p, observed[i]))
 			}
@@ -141,8 +204,15 @@ func tryReplay(w *world, o *vc.OblResult, ex *vc.Exec, rp *Replay) {
 				rp.Notes = append(rp.Notes, why)
 				return
 			}
+			// the comparison covers nil-ness, lengths, scalars and the bytes of
+			// byte-slice results; a clause that reads more of a result (fields of
+			// a returned struct, elements of other slices) is not settled by it
+			if what := deepResultRead(useEx, o.O, plan); what != "" {
+				rp.Notes = append(rp.Notes, "the real function returns the outcome the counterexample predicts as far as compared (nil-ness, lengths, scalars, bytes of byte slices), but the clause also reads "+what+", which the comparison does not cover: not counted as a demonstration")
+				return
+			}
 			rp.Confirmed = true
-			rp.Notes = append(rp.Notes, "the real function returns the outcome the counterexample predicts for this input (compared: nil-ness of pointers, errors and slices, slice lengths, scalar results); for that input/outcome pair the contract clause is false")
+			rp.Notes = append(rp.Notes, "the real function returns the outcome the counterexample predicts for this input (compared: nil-ness of pointers, errors and slices, slice lengths, scalar results, bytes of byte-slice results); for that input/outcome pair the contract clause is false")
 		}
 	default:
 		rp.Notes = append(rp.Notes, "obligation kind "+o.O.Kind+" is not replayed")
@@ -191,6 +261,10 @@ func renderTest(p *vc.ReplayPlan) string {
 		case "iface", "ptr":
 			fmt.Fprintf(&sb, "\t\tif r%d == nil {\n\t\t\tfmt.Println(\"GOVC-REPLAY RESULT %d: nil\")\n\t\t} else {\n\t\t\tfmt.Println(\"GOVC-REPLAY RESULT %d: non-nil\")\n\t\t}\n", i, i, i)
 		case "slice":
+			if p.ResTypes[i] == "[]byte" || p.ResTypes[i] == "[]uint8" {
+				fmt.Fprintf(&sb, "\t\tif r%d == nil {\n\t\t\tfmt.Println(\"GOVC-REPLAY RESULT %d: nil\")\n\t\t} else if len(r%d) <= 4096 {\n\t\t\tfmt.Printf(\"GOVC-REPLAY RESULT %d: len=%%d hex=%%x\\n\", len(r%d), r%d)\n\t\t} else {\n\t\t\tfmt.Printf(\"GOVC-REPLAY RESULT %d: len=%%d\\n\", len(r%d))\n\t\t}\n", i, i, i, i, i, i, i, i)
+				break
+			}
 			fmt.Fprintf(&sb, "\t\tif r%d == nil {\n\t\t\tfmt.Println(\"GOVC-REPLAY RESULT %d: nil\")\n\t\t} else {\n\t\t\tfmt.Printf(\"GOVC-REPLAY RESULT %d: len=%%d\\n\", len(r%d))\n\t\t}\n", i, i, i, i)
 		case "bool", "int":
 			fmt.Fprintf(&sb, "\t\tfmt.Printf(\"GOVC-REPLAY RESULT %d: %%v\\n\", r%d)\n", i, i)
@@ -360,4 +434,103 @@ func evalNilness(x vc.SExpr, isNil map[string]*bool) (val, ok bool) {
 		}
 	}
 	return false, false
+}
+
+// deepResultRead reports a part of a result that the failed clause reads and
+// the replay comparison does not cover ("" when there is none).
+func deepResultRead(ex *vc.Exec, o *vc.Obligation, plan *vc.ReplayPlan) string {
+	spec := ex.Spec
+	if spec == nil {
+		return ""
+	}
+	tag := o.Label
+	if i := strings.LastIndex(tag, "@ret"); i >= 0 {
+		tag = tag[:i]
+	}
+	kind := map[string]string{} // result name -> kind
+	for i, n := range spec.Results {
+		if i < len(plan.ResKinds) {
+			k := plan.ResKinds[i]
+			if k == "slice" && i < len(plan.ResTypes) && (plan.ResTypes[i] == "[]byte" || plan.ResTypes[i] == "[]uint8") {
+				k = "bytes"
+			}
+			kind[n] = k
+		}
+	}
+	found := ""
+	var walk func(x vc.SExpr, ctx string)
+	walk = func(x vc.SExpr, ctx string) {
+		if found != "" || x == nil {
+			return
+		}
+		switch n := x.(type) {
+		case *vc.SIdent:
+			k, isRes := kind[n.Name]
+			if !isRes {
+				return
+			}
+			switch k {
+			case "bool", "int":
+				return
+			case "bytes":
+				if ctx == "nil" || ctx == "len" || ctx == "seq" || ctx == "index" {
+					return
+				}
+			default:
+				if ctx == "nil" || (ctx == "len" && k == "slice") {
+					return
+				}
+			}
+			found = "`" + n.Name + "` beyond that"
+		case *vc.SBin:
+			if n.Op == "==" || n.Op == "!=" {
+				if id, ok := n.R.(*vc.SIdent); ok && id.Name == "nil" {
+					walk(n.L, "nil")
+					return
+				}
+				if id, ok := n.L.(*vc.SIdent); ok && id.Name == "nil" {
+					walk(n.R, "nil")
+					return
+				}
+			}
+			walk(n.L, "")
+			walk(n.R, "")
+		case *vc.SUn:
+			walk(n.X, "")
+		case *vc.SCall:
+			for _, a := range n.Args {
+				switch n.Fun {
+				case "len":
+					walk(a, "len")
+				case "seq":
+					walk(a, "seq")
+				case "old":
+					walk(a, ctx)
+				default:
+					walk(a, "")
+				}
+			}
+		case *vc.SIndex:
+			walk(n.X, "index")
+			walk(n.I, "")
+		case *vc.SSlice:
+			walk(n.X, "index")
+			walk(n.Lo, "")
+			walk(n.Hi, "")
+		case *vc.SField:
+			walk(n.X, "field")
+		case *vc.SQuant:
+			walk(n.Body, "")
+		}
+	}
+	for _, en := range spec.Ensures {
+		lbl := en.Tag
+		if lbl == "" {
+			lbl = en.Text
+		}
+		if lbl == tag {
+			walk(en.Expr, "")
+		}
+	}
+	return found
 }
